@@ -26,14 +26,19 @@ type caseParams struct {
 	pfMille int
 	hdrs    bool
 	target  uint32
-	stopAt  int // the subject only accepts the first stopAt blocks (headers may go further); 0 = all
+	backend string // backend of the subject node: memory | bolt | level
+	replica string // backend of the reopened replicas
+	stopAt  int    // the subject only accepts the first stopAt blocks (headers may go further); 0 = all
 }
 
 func drawParams(k int, r *prng.R, tier string) caseParams {
 	p := caseParams{kind: "crash", n: r.Range(20, 45), pfMille: []int{1000, 600, 300, 120, 50}[r.Intn(5)], hdrs: r.Chance(2, 3)}
 	p.proto.SRH = r.Bool()
+	p.backend, p.replica = "memory", "memory"
 	if tier == "thorough" {
 		p.n = r.Range(20, 60)
+		p.backend = []string{"memory", "bolt", "level"}[r.Intn(3)]
+		p.replica = []string{"memory", "memory", "bolt", "level"}[r.Intn(4)]
 	}
 	switch {
 	case k == 0: // every block its own batch, headers ahead
@@ -137,7 +142,10 @@ func runCase(k int, seed uint64, tier string) *caseOut {
 	}
 	var sr *subjectRun
 	for attempt := 0; attempt < 3; attempt++ {
-		sr, err = runSubject(h, cfg, p.local, steps)
+		if sr != nil {
+			sr.cleanup()
+		}
+		sr, err = runSubject(h, cfg, p.local, steps, p.backend)
 		if err != nil {
 			c.fail("subject-run", "%v", err)
 			return c
@@ -147,6 +155,9 @@ func runCase(k int, seed uint64, tier string) *caseOut {
 		}
 		c.cnt.count("subject:timer-interference-retry")
 	}
+	defer sr.cleanup()
+	c.replica = p.replica
+	c.cnt.count("subject-backend:" + p.backend)
 	c.line(fmt.Sprintf("cfg srh=%v mtb=%d rub=%v gcp=%d", p.proto.SRH, h.MTB, p.local.RUB, p.local.GCP), "ok")
 	if !sr.timerHit {
 		c.lines = append(c.lines, sr.lines...)
